@@ -95,6 +95,7 @@ def variant_of(header):
     if w[1] == "pos":
         return "filter" if w[4] != "0" else ("prio" if w[3] != "0" else "fcfs")
     if w[1] in ("buf", "bufedge"): return w[3]
+    if w[1] == "prq": return ""
     return ""
 
 def match_known(known, pid, header, rule):
